@@ -94,8 +94,29 @@ def fill(claim, na):
           "Counterexamples are replayed on a native hierarchical bench in which each model dead-locks on a query loop-back (1 and 3 threads). "
           "NOT decided: the in-flight message counter (THREAD_MSG_COUNT, folding when workers park) and therefore 'never a false report on "
           "any schedule or thread count'.", "DESIGN.md §5 C06")
+    claim("C15", "E3 axc11 (on E2 mirse)",
+          "axiomatic C11 model checking: each thread of a client program is executed symbolically on the crate's MIR (mirse), its atomic "
+          "loads/stores/fences become events, and z3 searches for a reads-from / modification-order assignment consistent with the C11 "
+          "release/acquire axioms that violates the property; witnesses are replayed under loom",
+          "For the listed client programs (1-2 writes of symbolic times, a reader doing 1-2 try_read, optionally a Release/Acquire "
+          "publication flag) NO C11-consistent execution of the real SyncCell/TearableAtomicTime code returns a torn time, an older time "
+          "than one already observed, or one older than what was published; the writer reads back its last write.",
+          "Trusted: the axiomatic model in vlib/mirse/axc11.py (self-tested on MP/SB/LB/CoRR/fence/release-sequence/RMW litmus shapes), "
+          "the MIR interpreter. Bounded: the client programs; read()'s retry loop is represented by try_read outcomes. A solver witness "
+          "becomes a VIOLATION only when loom (the repository's own seqlock loom tests + the same client program) reproduces a failure.",
+          "DESIGN.md §5 C15")
+    claim("C12", "E2 mirse", E2_TECH,
+          "Reduced scope (sequential semantics, no wake-up clause): from EVERY valid queue state (capacities 1-4 incl. non powers of two, "
+          "every fill level / dequeue index / closed flag, SYMBOLIC sequence counters — so also at the 2^64 wrap-around) each of push, pop, "
+          "pop+drop, close keeps the representation invariant, push says Full iff capacity is reached (a borrowed slot is not reusable), "
+          "pop yields the oldest message, len() equals the number held, closed queues refuse pushes but stay drainable, no arithmetic "
+          "panic; plus every 6-operation sequence from Queue::new against a reference FIFO.",
+          "Trusted: MIR interpreter, RecycleBox as an identity token, sequential atomics (compare_exchange_weak may fail spuriously once). "
+          "Counterexamples are replayed on the real Queue<u64> by a cfg(test) module appended to the overlay that pokes the solver's "
+          "state into the private fields. NOT decided: the wake-up clauses (send/recv coroutines over async-event) and concurrent "
+          "producers under C11.", "DESIGN.md §5 C12")
     pending = "check not built yet in this round (planned, see DESIGN.md §5); not claimed until it runs"
-    for p in ["C02", "C03", "C12", "C14", "C15"]:
+    for p in ["C02", "C03", "C14"]:
         na(p, pending)
     na("C04", "The property is about the multi-threaded executor's idle/park hand-off on real threads (st3, parking); Kani has no "
               "threads and the MIR engine has no model of blocking primitives; the single-threaded remainder would not justify the claim.")
